@@ -222,6 +222,44 @@ def _graphs(tier):
                                    "key": f"graph/{kinds}/{cyc}"}}
 
 
+def _two_round():
+    """(h) components that need two parsing rounds (a member refers to a component declared later) and that carry an inline
+    class (enum / object) before or after that member: holder kind x inline kind x inline position x target kind x order."""
+    R = "#/components/schemas/"
+    inl = {"enum": {"type": "string", "enum": ["p", "q"]}, "object": {"type": "object", "properties": {"k": {"type": "string"}}},
+           "enum-array": {"type": "array", "items": {"type": "string", "enum": ["p", "q"]}}}
+    targets = {"object": {"type": "object", "properties": {"t": {"type": "integer"}}}, "enum": {"type": "string", "enum": ["x", "y"]},
+               "alias": {"$ref": R + "Base"}, "composed": {"allOf": [{"$ref": R + "Base"}, {"type": "object", "properties": {"c": {"type": "integer"}}}]}}
+    for hk in ("oneOf", "anyOf", "tuple-array", "properties", "allof-property", "addl"):
+        for ik, inline in inl.items():
+            for pos in ("inline-first", "inline-last"):
+                for tk, target in targets.items():
+                    fwd = {"$ref": R + "Later"}
+                    members = [inline, fwd] if pos == "inline-first" else [fwd, inline]
+                    if hk in ("oneOf", "anyOf"):
+                        holder = {hk: members}
+                    elif hk == "tuple-array":
+                        holder = {"type": "array", "prefixItems": members[:1], "items": members[1]}
+                    elif hk == "properties":
+                        holder = {"type": "object", "properties": dict(zip(("first", "second"), members))}
+                    elif hk == "allof-property":
+                        wrapped = [inline, {"type": "object", "allOf": [fwd]}] if pos == "inline-first" else [{"type": "object", "allOf": [fwd]}, inline]
+                        holder = {"type": "object", "properties": dict(zip(("first", "second"), wrapped))}
+                    else:
+                        holder = {"type": "object", "properties": {"first": inline}, "additionalProperties": fwd} if pos == "inline-first" else \
+                                 {"type": "object", "additionalProperties": {"oneOf": members}}
+                    if hk == "allof-property" and tk == "enum":
+                        continue
+                    for order in ("holder-first", "holder-last"):
+                        comps = {"Shape": holder, "Later": target, "Base": {"type": "object", "properties": {"b": {"type": "string"}}}}
+                        if order == "holder-last":
+                            comps = {k: comps[k] for k in ("Base", "Later", "Shape")}
+                        paths = {"/s": {"post": {"operationId": "postS", "requestBody": {"required": True, "content": {"application/json": {"schema": {"$ref": R + "Shape"}}}},
+                                                 "responses": {"200": {"description": "d", "content": {"application/json": {"schema": {"$ref": R + "Shape"}}}}}}}}
+                        yield {"labels": [f"two-round={hk}", f"inline={ik}", pos, f"target={tk}", order],
+                               "payload": {"doc": gen.base_doc(comps, paths=paths), "options": {}, "meta": "none", "key": f"two-round/{hk}/{ik}"}}
+
+
 def _has_cycle(n, edges):
     adj = {i: {j for a, j, _k in edges if a == i} for i in range(n)}
     def reach(a, b, seen):
@@ -237,6 +275,7 @@ def cases(tier):
     yield from _default_pairs()
     yield from _graphs(tier)
     yield from _regenerations(tier)
+    yield from _two_round()
     bound = 2 if tier == "quick" else 3
     limit = 30000 if tier == "quick" else 400000
     for labels, payload, _d in explore(_build, bound=bound, limit=limit):
